@@ -257,8 +257,10 @@ def check_C03(res, tier, seed):
     c = prepare('C03', res)
     n = 400 if tier == 'quick' else 12000
     stats, samples = run_kapi(c, res, 'C03', 'session', n, 45 if tier == 'quick' else 60, seed, 'monitor_c03')
-    res.coverage.update({'evaluations': stats['ops'], 'distinct_nontrivial': stats['distinct_traces'],
-                         'rule': 'model-guided random call sequences over <=2 tokens (alphabet of the C03 quantifier); a trace is non-trivial when at least 3 calls after the prelude succeed; distinct = distinct (op, rv) sequences',
+    st2, d2, _ = run_kcrypto(c, res, 'C03', 'seq_failed_state', 120 if tier == 'quick' else 4000, seed, stream='K-failed-state')
+    stats['failed_state'] = st2
+    res.coverage.update({'evaluations': stats['ops'] + st2['calls'], 'distinct_nontrivial': stats['distinct_traces'] + d2,
+                         'rule': 'K-failed-state (no model): histories in which calls are made to fail (C_InitToken with a NULL label / wrong / NULL PIN, C_Login with wrong PIN / bad user type / NULL PIN, C_InitPIN and C_SetPIN with NULL, short, wrong PINs or in the wrong state, bad flags, bad slot, stale handles); after each failing call the state of every session and the login state of the token (probed with a read-only session when none is open) must be what they were.  K-api: model-guided random call sequences over <=2 tokens (alphabet of the C03 quantifier); a trace is non-trivial when at least 3 calls after the prelude succeed; distinct = distinct (op, rv) sequences',
                          'samples': samples, 'k_api': stats, 'traces_validated_against_impl': stats['sequences']})
     finish_proof_side(c, res, 'C03')
 
@@ -307,6 +309,10 @@ def check_C12(res, tier, seed):
                                    'names': 'the correspondence stream K-sizes (coq/Crypto/OpModel.v vs libsofthsm2.so) no longer checks'}, no_input=True)
     st_a, distinct_a, samples_a = run_kcrypto(c, res, 'C12', 'seq_asym_len', 48 if tier == 'quick' else 1500, seed, stream='K-asym-len')
     stats['asymmetric'] = st_a
+    # the search operation is one of the operations of the property: batches of 0, 1, 2, ... handles against the core model
+    # (the driver puts canaries behind the announced number of handles)
+    st_f, _ = run_kapi(c, res, 'C12', 'find', 100 if tier == 'quick' else 3000, 45, seed, 'monitor_c19')
+    stats['find'] = {k: st_f[k] for k in ('sequences', 'ops', 'compared', 'disagreements', 'monitor_alarms')}
     res.coverage.update({'evaluations': stats['calls'] + st_a['calls'], 'distinct_nontrivial': len(seen) + distinct_a,
                          'rule': 'K-asym-len: RSA sign (PKCS#1, SHA256-PKCS#1, X.509 raw), multi-part sign, decrypt and encrypt with 1024 / 2048-bit keys whose modulus was imported with 0-2 leading zero octets: the length query reports the modulus size, one byte less is CKR_BUFFER_TOO_SMALL with the same length, exactly that size completes.  K-sizes, per sequence: AES ECB/CBC/CBC-PAD/CTR/GCM encryption of a random message in random parts (zero-length parts included) and decryption of the produced ciphertext, each call preceded by a length query and/or a too-small buffer with probability ~0.6, then a sufficient buffer; wrong-kind and second-Init calls interleaved; SHA-256 digest and HMAC with buffer sizes {NULL,0,31,32,40}; distinct = distinct (op, buffer, rv, length) sequences',
                          'samples': samples, 'k_sizes': stats, 'traces_validated_against_impl': stats['sequences']})
@@ -323,7 +329,7 @@ def _kc_job(args):
             return _kc_job((fn,) + tuple(a))
         finally:
             P11.DEFAULT_BACKEND = 'file'
-    mod = kattr if fn.startswith('seq_attr') else kguard if fn.startswith('seq_guard') or fn == 'seq_c01_create' else kstore if fn in ('seq_reject', 'seq_persist') else ktoken if fn == 'seq_tokens' else kfuzz if fn in ('seq_files', 'seq_api', 'seq_incomplete') else kdiff if fn == 'seq_cross' else kproc if fn in ('seq_proc', 'seq_race') else kenc if fn == 'seq_enc' else kcrypto
+    mod = kattr if fn.startswith('seq_attr') else kguard if fn.startswith('seq_guard') or fn == 'seq_c01_create' else kstore if fn in ('seq_reject', 'seq_persist') else ktoken if fn in ('seq_tokens', 'seq_failed_state') else kfuzz if fn in ('seq_files', 'seq_api', 'seq_incomplete', 'seq_long_templates') else kdiff if fn == 'seq_cross' else kproc if fn in ('seq_proc', 'seq_race', 'seq_scan_race') else kenc if fn == 'seq_enc' else kcrypto
     return getattr(mod, fn)(*a)
 
 
@@ -560,8 +566,10 @@ def check_C17(res, tier, seed):
         tpl.close()
     stats2, distinct2, samples2 = run_kcrypto(c, res, 'C17', 'seq_api', 180 if tier == 'quick' else 6000, seed, extra=(opdrv, paddrv), stream='K-api', lib_override=liba)
     stats3, distinct3, samples3 = run_kcrypto(c, res, 'C17', 'seq_incomplete', 200 if tier == 'quick' else 5000, seed, stream='K-api', lib_override=liba)
+    stats4, distinct4, _ = run_kcrypto(c, res, 'C17', 'seq_long_templates', 60 if tier == 'quick' else 2000, seed, stream='K-api', lib_override=liba)
+    stats3['long_templates'] = stats4
     res.coverage.update({'evaluations': stats['calls'] + stats2['calls'] + stats3['calls'], 'distinct_nontrivial': distinct + distinct2 + distinct3,
-                         'rule': 'K-fuzz keys: RSA / EC / DSA / DH / AES / generic keys created with one component dropped, empty, 00, 01 or 600 bytes of ff, then every signing, decrypting, verifying, encrypting, deriving, wrapping, unwrapping, digesting and reading call on them, on the sanitizer build.  K-fuzz files: a template token directory (4 objects, both PINs) with 1-3 mutations (bit flips, truncation, 8-byte fields set to big / huge / small values, attribute kinds, zeroed ranges, duplicated ranges, appended bytes, emptied files) in object files, token.object, the generation file, or a hostile line appended to softhsm2.conf; on the plain build and on the ASan+UBSan build a fresh process initialises, lists slots, logs in as SO and user, searches, reads every attribute, and tries encrypt / sign / set / copy / size on up to 8 objects; the number of objects is compared with the number of files the extracted Coq codec reads as valid.  K-fuzz API: the streams of the other checks (K-guard, K-attr, K-crypto C10 / C13, K-sizes, K-reject: hostile handles, lengths, templates, mechanism parameters, key / mechanism mismatches) replayed on the sanitizer build.  A dead, aborted or hung process is a violation (an allocation the sanitizer refuses is judged on the plain build).',
+                         'rule': 'K-fuzz templates: templates of 31 / 32 / 33 / 34 / 40 / 64 / 200 entries (valid repeated attributes or unknown ones) handed to C_CreateObject, C_GenerateKey, C_GenerateKeyPair (RSA, EC, EdDSA; the long one on the private side), C_UnwrapKey, C_DeriveKey, C_CopyObject, C_SetAttributeValue, C_FindObjectsInit, C_GetAttributeValue on the sanitizer build.  K-fuzz keys: RSA / EC / DSA / DH / AES / generic keys created with one component dropped, empty, 00, 01 or 600 bytes of ff, then every signing, decrypting, verifying, encrypting, deriving, wrapping, unwrapping, digesting and reading call on them, on the sanitizer build.  K-fuzz files: a template token directory (4 objects, both PINs) with 1-3 mutations (bit flips, truncation, 8-byte fields set to big / huge / small values, attribute kinds, zeroed ranges, duplicated ranges, appended bytes, emptied files) in object files, token.object, the generation file, or a hostile line appended to softhsm2.conf; on the plain build and on the ASan+UBSan build a fresh process initialises, lists slots, logs in as SO and user, searches, reads every attribute, and tries encrypt / sign / set / copy / size on up to 8 objects; the number of objects is compared with the number of files the extracted Coq codec reads as valid.  K-fuzz API: the streams of the other checks (K-guard, K-attr, K-crypto C10 / C13, K-sizes, K-reject: hostile handles, lengths, templates, mechanism parameters, key / mechanism mismatches) replayed on the sanitizer build.  A dead, aborted or hung process is a violation (an allocation the sanitizer refuses is judged on the plain build).',
                          'samples': samples, 'k_fuzz_files': stats, 'k_fuzz_api': stats2, 'k_fuzz_keys': stats3, 'traces_validated_against_impl': stats['sequences'] + stats2['sequences'],
                          'not_covered': 'entry points the driver does not call (C_GetOperationState restore, C_WaitForSlotEvent, legacy parallel functions); NULL pointers where PKCS#11 forbids them; Botan and SQLite builds'})
     finish_proof_side(c, res, 'C17')
@@ -600,7 +608,8 @@ def check_C20(res, tier, seed):
         total_seq += a['sequences'] + b['sequences']
         for (fn, n, extra, label) in (('seq_attr', 40 if q else 1500, (), 'K-attr'), ('seq_c10', 40 if q else 1500, (), 'K-crypto'), ('seq_c13', 40 if q else 1500, (paddrv,), 'K-pad'),
                                       ('seq_guard', 40 if q else 1500, (), 'K-guard'), ('seq_reject', 30 if q else 1000, (), 'K-reject'), ('seq_tokens', 80 if q else 1500, (), 'K-token'),
-                                      ('seq_persist', 24 if q else 600, (None,), 'K-persist')):
+                                      ('seq_persist', 24 if q else 600, (None,), 'K-persist')) + \
+                (((('seq_proc', 24 if q else 600, (c.harness['fsshim'],), 'K-proc'),) if backend == 'db' else ())):
             s_, d_, _ = run_kcrypto(c, res, 'C20', 'cfg:%s:%s' % (backend, fn), n, seed, extra=extra, stream='%s[%s]' % (label, name), lib_override=lib,
                                     classify=botan_known if variant.startswith('botan') else None)
             st[label] = {'sequences': s_['sequences'], 'calls': s_['calls'], 'findings': s_['findings'], 'known_findings': s_.get('known_findings', 0)}
@@ -641,6 +650,8 @@ def check_C15(res, tier, seed):
             return 'key=lost-update %s' % known['lost-update']['text'][:200]
         return None
     stats2, distinct2, samples2 = run_kcrypto(c, res, 'C15', 'seq_race', 160 if tier == 'quick' else 5000, seed, extra=(shim, codecdrv), stream='K-race', classify=cls)
+    stats3, distinct3, _ = run_kcrypto(c, res, 'C15', 'seq_scan_race', 90 if tier == 'quick' else 3000, seed, extra=(shim,), stream='K-scan-race')
+    stats2['scan_race'] = stats3
     res.coverage.update({'evaluations': stats['calls'] + stats2['calls'], 'distinct_nontrivial': distinct + distinct2,
                          'rule': 'K-proc: two or three library processes on one token directory, 14-24 steps: a random process creates (public / private), relabels, changes CKA_OBJECT_ID of, or destroys a token object; the ghost (the fold of the committed writes, as in the theorem) is updated on CKR_OK; after every step another process searches and reads everything without re-initialising and must see exactly the ghost, and a handle it holds for a destroyed object must be invalid.  K-race: process A\'s set / create / destroy is paused by the shim before its k-th file-system call (k random over the whole call), process B runs a complete call on the same object, another object, or a search (overtaking A or waiting for its lock), A is released; both must return, both must then see the same objects, every committed effect must be present (no lost update, no resurrection, no duplicate), every object file must decode in the extracted codec.',
                          'samples': samples, 'k_proc': stats, 'k_race': stats2, 'traces_validated_against_impl': stats['sequences'] + stats2['sequences'],
@@ -689,11 +700,12 @@ def check_C18(res, tier, seed):
     # free-running read-only stress: 8 threads, no schedule control (run a few at a time: each run is 8 busy threads)
     nstress, iters = (6, 400) if tier == 'quick' else (60, 1500)
     with multiprocessing.Pool(2) as pool:
-        stress = pool.map(kthread.stress_case, [(thr, c.lib, 8, iters, i, 'stress' if i % 2 == 0 else 'stressos') for i in range(nstress)])
+        stress = pool.map(kthread.stress_case, [(thr, c.lib, 8, iters, i, 'stress' if i % 2 == 0 else 'stressos') for i in range(nstress)] +
+                          [(thr, c.lib, 4, iters, nstress + i, 'churn') for i in range(nstress // 2)])
     byclass, reported = {}, 0
     sbad = [x for x in stress if x['finding']]
     for x in sbad[:2]:
-        res.violation('C18: ' + x['finding'], {'kind': 'thread-stress', 'threads': 8, 'iterations': iters, 'observed': x['raw'], 'mode': 'stressos' if x['i'] % 2 else 'stress',
+        res.violation('C18: ' + x['finding'], {'kind': 'thread-stress', 'threads': 8, 'iterations': iters, 'observed': x['raw'], 'mode': ('churn' if x['i'] >= nstress else 'stressos' if x['i'] % 2 else 'stress'),
                                                'how': 'harness/thrdrv <libsofthsm2.so> stress 8 %d with SOFTHSM2_CONF pointing at an empty token directory (repeat: the failure depends on the schedule)' % iters})
     for r in results:
         for msg in r['findings']:
@@ -722,7 +734,7 @@ def check_C18(res, tier, seed):
     res.coverage.update({'evaluations': len(jobs), 'distinct_nontrivial': len(jobs),
                          'rule': '14 two-thread scenarios (search / search on unregistered and registered token objects, private reads, create / create, create / search, session-object create / search, destroy / read, set / read, logout / private read, open / close session, HMAC / HMAC with one key, generate / generate, search / create, read / close): locking enabled with application mutex callbacks; thread A is stopped before each of its LockMutex calls in turn (quick: first 16, last 16 and 16 random ones per scenario) while thread B runs its whole call; the outcome (both return codes and outputs, final object set, handle uniqueness) must equal that of A;B or of B;A run without concurrency; plus free-running repetitions; a run that does not finish in 25 s is a deadlock; plus stress runs of 8 free-running threads that only read unchanging objects (answers must equal the sequential ones; a signal is a crash)',
                          'stress': {'runs': nstress, 'threads': 8, 'iterations_per_thread': iters, 'calls': sum(x.get('calls', 0) for x in stress), 'failed_runs': len(sbad),
-                                    'what': 'private and public CKA_VALUE reads, search, AES-ECB encryption under a private token key; each thread its own session; answers compared with a sequential run; every other run uses CKF_OS_LOCKING_OK after an unlocked C_Initialize(NULL) / C_Finalize cycle instead of mutex callbacks'},
+                                    'what': 'private and public CKA_VALUE reads, search, AES-ECB encryption under a private token key; each thread its own session; answers compared with a sequential run; every other run uses CKF_OS_LOCKING_OK after an unlocked C_Initialize(NULL) / C_Finalize cycle instead of mutex callbacks; churn runs: two threads create and destroy session objects while two threads search and read labels - only a crash or a hang counts there'},
                          'scenarios': info, 'findings_by_class': byclass, 'traces_validated_against_impl': len(jobs),
                          'not_covered': 'more than two threads under schedule control, more than one stop point per call, OS locking (CKF_OS_LOCKING_OK) instead of callbacks, data races without a visible effect (no ThreadSanitizer run), SQLite backend'})
     finish_proof_side(c, res, 'C18')
@@ -757,7 +769,13 @@ def check_C16(res, tier, seed):
     c = prepare('C16', res, extra_vo=['extract/ExtractCodec.vo'])
     codecdrv = vlib.build_ocaml('codecdrv', 'codec_model', 'codecdrv.ml')
     st = store_sweep(c, res, 'C16', tier, seed, ('kill',), codecdrv)
-    res.coverage.update({'evaluations': st['kill_cases'], 'distinct_nontrivial': st['kill_cases'],
+    # the first logins after C_InitToken / C_InitPIN on a token that never had a user PIN (the template token is past that point)
+    fl, fls = kstore.first_login_crash(c.lib, c.harness['p11drv'], c.harness['fsshim'])
+    st['first_login'] = fls
+    for (_, msg) in fl[:2]:
+        res.violation('C16: ' + msg, {'kind': 'first-login-crash', 'message': msg,
+                                      'how': 'fresh token: C_InitToken, SO login, one public token object, C_InitPIN, C_Finalize; new process under harness/fsshim.so: C_Login, killed before the named event; a third process checks token, PINs, object'})
+    res.coverage.update({'evaluations': st['kill_cases'] + fls['kill_cases'], 'distinct_nontrivial': st['kill_cases'],
                          'rule': 'K-crash: 18 write-path scenarios (create data / big data / private key, set attribute on a public and a private object, copy, destroy, generate key, generate key pair, unwrap, derive, C_SetPIN user / SO, C_InitPIN, C_Login, C_InitToken re-init and fresh) on a template token with four objects; harness/fsshim.so first logs the file-system events of the call, then the process is killed (_exit, nothing flushed) before event k for every k (quick: 36 sampled points per scenario incl. the first and last 12); a fresh process must initialise, find the token, log in with both PINs, return every untouched object unchanged and the written object in its old or new state (a created one may be absent, but never incomplete)',
                          'k_crash': st, 'traces_validated_against_impl': st['kill_cases'],
                          'not_covered': 'power-loss reordering of writes (the shim kills the process, the page cache survives); SQLite backend'})
